@@ -82,6 +82,8 @@ func newRunner(poison bool) *runner {
 	r.ir.DeclFunc("emit", func(x int) { r.trace = append(r.trace, fmt.Sprint(x)) })
 	r.ir.DeclFunc("emitb", func(x bool) { r.trace = append(r.trace, fmt.Sprint(x)) })
 	r.ir.DeclFunc("emits", func(x string) { r.trace = append(r.trace, "s:"+x) })
+	// callf(fid, f): probe "the function literal fid was evaluated in the current Env", then call it (matrix.go)
+	r.ir.DeclFunc("callf", func(fid int, f func()) { r.ev(evClos, fid); f() })
 	return r
 }
 
@@ -363,6 +365,7 @@ func ev(k, a int) {
 func emit(x int)     { Out = append(Out, fmt.Sprint(x)) }
 func emitb(x bool)   { Out = append(Out, fmt.Sprint(x)) }
 func emits(x string) { Out = append(Out, "s:"+x) }
+func callf(fid int, f func()) { ev(6, fid); f() }
 
 func Run() (p interface{}) {
 	defer func() { p = recover() }()
@@ -491,6 +494,7 @@ type caseInput struct {
 	Decls  []string `json:"decls"`
 	Run    string   `json:"run"`
 	Corpus string   `json:"corpus,omitempty"`
+	Matrix string   `json:"matrix,omitempty"` // address matrix (matrix.go): kind, upn and layer shapes of this program
 }
 
 func main() {
@@ -501,6 +505,9 @@ func main() {
 		"nested function literals (with/without body Env), blocks/for/if with and without init and local declarations, break/continue/early return across Envs, "+
 		"&x of int-slot and val-slot variables at upn 0..n, closures and pointers escaping through results, global slices, maps and struct fields, method values and method expressions; "+
 		"every declaration evaluated by its own Eval, then run() evaluated: (a) normally (b) with the pool poisoned at every probe (c) compiled Go. "+
+		"PLUS the address matrix (matrix.go): one instrumented program per int-like kind (16) x upn 0..4 (x 6 rotations of the layer shapes in the thorough tier): &x of a local taken upn Envs "+
+		"(blocks with locals, for/if/switch headers with :=, function literals with/without locals) below its owner (function frame, block, literal body), pointer returned / stored in a global / "+
+		"a slice / a closure, maker called twice, 44 churn calls, pointers compared, read, written, churned and read again. "+
 		"A program is non-trivial when it performed >=1 pool hit (a frame taken from the pool) and created >=1 closure or int pointer that was used after its creating call returned; distinct by SHA-256 of the source")
 	n, perShard, histGroup := 120, 20, 1
 	if a.Thorough() {
@@ -514,6 +521,8 @@ func main() {
 	lap := func(what string) { fmt.Fprintf(os.Stderr, "[c06] %-28s %6.1fs\n", what, time.Since(t0).Seconds()) }
 	if a.N > 0 {
 		n = a.N
+	} else if a.N < 0 {
+		n = 0 // development: corpus + address matrix only
 	}
 	var progs []*program
 	var inputs []caseInput
@@ -552,6 +561,16 @@ func main() {
 		n = 0
 	}
 	nCorpus := len(progs)
+	// address matrix (matrix.go): every int-like kind x upn 0..4, deterministic (the seed only rotates the layer shapes)
+	nMatrix := 0
+	if a.Replay == "" {
+		for _, p := range mxPrograms(len(progs), a.Seed, a.Thorough()) {
+			inputs = append(inputs, caseInput{Idx: len(progs), Seed: a.Seed, Decls: p.Decls, Run: p.Run, Matrix: p.Matrix})
+			progs = append(progs, p)
+			nMatrix++
+		}
+	}
+	nFixed := len(progs)
 	normal, poisoned := newRunner(false), newRunner(true)
 	lap("interpreters created")
 	// canaries: does the tree under test still show the known findings?  (their exact inputs are in corpus/C06)
@@ -561,9 +580,9 @@ func main() {
 	av.MethodValue = !normal.canary(`type Canary3 struct{ n int }; func (t Canary3) Get() int { return t.n }`, `c3 := &Canary3{1}; m3 := c3.Get; c3.n = 2; m3()`, "1")
 	for i := 0; i < n; i++ {
 		sub := rng.Fork()
-		p := genProgram(sub, nCorpus+i, av)
+		p := genProgram(sub, nFixed+i, av)
 		progs = append(progs, p)
-		inputs = append(inputs, caseInput{Idx: nCorpus + i, Seed: a.Seed, Decls: p.Decls, Run: p.Run})
+		inputs = append(inputs, caseInput{Idx: nFixed + i, Seed: a.Seed, Decls: p.Decls, Run: p.Run})
 	}
 	for i := range inputs {
 		inputs[i].Idx = i
@@ -722,6 +741,7 @@ func main() {
 	rep.Extra["frame_ops_replayed_by_model"] = totalOps
 	rep.Extra["programs_skipped_event_budget"] = skipped
 	rep.Extra["corpus_programs"] = nCorpus
+	rep.Extra["address_matrix_programs"] = nMatrix
 	rep.Extra["programs_replayed_by_model"] = nCases
 	rep.Extra["generator_avoids_known_finding_classes"] = av
 	rep.Extra["poison_rounds"] = poisoned.npoison
